@@ -73,6 +73,8 @@ def split_fmt(fmt):
         fmt = fmt[1:]
     out = []
     count = ''
+    if order in ('<', '>', '=', '!'):
+        fmt = fmt.replace('L', 'I').replace('l', 'i')  # standard sizes: both are four bytes
     for ch in fmt:
         if ch.isspace():
             continue
